@@ -617,7 +617,7 @@ Proof.
   destruct r' as [n0 x0 ins sn0| |[[n0 x0]|] sn0 a].
   - destruct HR as (Hf3 & _). congruence.
   - destruct HR as (Hf3 & _). congruence.
-  - destruct (hc_same_element hash cap g progs s _ _ _ _ _ _ _ _ _ _ _ _ _ _ R E1 E2 (eq_sym Hk) Hs eq_refl) as (-> & -> & _). eauto.
+  - destruct (hc_same_element hash cap g progs s _ _ _ _ _ _ _ _ _ _ _ _ _ _ R E1 E2 (eq_sym Hk) Hs eq_refl) as (-> & -> & _). simpl. eexists. reflexivity.
   - simpl in Hflag. subst a. pose proof (li_fres _ L _ _ _ _ _ _ _ Hev'). discriminate.
 Qed.
 End Lin.
